@@ -695,12 +695,128 @@ impl<'a> Cx<'a> {
         }
     }
 
+    /// `PLACE.m(args)` where `m` is a translated method of the struct that lives at PLACE (no effect log, no cfg inputs): the callee's
+    /// `self.<path>` inputs and outputs are the caller's `PLACE.<path>` places, an object parameter's fields are read from the place given
+    /// as argument.
+    fn call_translated_on_place(&mut self, m: &syn::ExprMethodCall) -> R<Option<Tx>> {
+        if self.vm_mode {
+            return Ok(None);
+        }
+        let rp = match self.path_of(&m.receiver) {
+            Some(p) => p,
+            None => return Ok(None),
+        };
+        let comps: Vec<String> = rp.split('.').skip(1).map(|s| s.to_string()).collect();
+        let root = rp.split('.').next().unwrap_or("self").to_string();
+        if comps.is_empty() {
+            return Ok(None);
+        }
+        let rty = match self.place_type(&root, &comps) {
+            Ok(t) => t,
+            Err(_) => return Ok(None),
+        };
+        let mut rty = rty;
+        loop {
+            match &rty {
+                Ty::Ref(i) => rty = (**i).clone(),
+                Ty::Path { name, args } if TRANSPARENT.contains(&name.as_str()) && args.len() == 1 => rty = args[0].clone(),
+                _ => break,
+            }
+        }
+        let head = match rty.head() {
+            Some(h) => h.to_string(),
+            None => return Ok(None),
+        };
+        let sig = match self.callees.get(&format!("{}::{}", head, m.method)) {
+            Some(s) if s.simple && s.owner.as_deref() == Some(head.as_str()) => s.clone(),
+            _ => return Ok(None),
+        };
+        if sig.rust_params.len() != m.args.len() {
+            return self.un(format!("call of translated `{}::{}` with {} arguments", head, m.method, m.args.len()));
+        }
+        let mut pre = Vec::new();
+        let mut terms = Vec::new();
+        // value parameters, in order
+        let mut vi = 0;
+        let mut arg_places: BTreeMap<String, String> = BTreeMap::new();
+        for ((pn, is_struct), a) in sig.rust_params.iter().zip(m.args.iter()) {
+            if *is_struct {
+                match self.path_of(a) {
+                    Some(ap) => {
+                        arg_places.insert(pn.clone(), ap);
+                    }
+                    None => return self.un(format!("argument `{}` of translated `{}::{}` is not a place", toks(a), head, m.method)),
+                }
+            } else {
+                let want = sig.params.get(vi).cloned();
+                vi += 1;
+                let x = self.expr(a, want.as_ref())?;
+                if Some(&x.ty) != want.as_ref() {
+                    return self.un(format!("argument `{}` of translated `{}::{}`: modelled types differ", toks(a), head, m.method));
+                }
+                pre.extend(x.pre);
+                terms.push(x.term);
+            }
+        }
+        for (path, ty) in &sig.place_ins {
+            let caller_path = if let Some(rest) = path.strip_prefix("self.") {
+                format!("{}.{}", rp, rest)
+            } else {
+                let (proot, prest) = match path.split_once('.') {
+                    Some(x) => x,
+                    None => return self.un(format!("callee input `{}` not understood", path)),
+                };
+                match arg_places.get(proot) {
+                    Some(ap) => format!("{}.{}", ap, prest),
+                    None => return self.un(format!("callee input `{}` has no argument place", path)),
+                }
+            };
+            let v = self.place(&caller_path)?;
+            if v.ty != *ty {
+                return self.un(format!("place `{}` handed to translated `{}::{}`: modelled types differ", caller_path, head, m.method));
+            }
+            terms.push(v.lean);
+        }
+        let r = self.fresh("r");
+        pre.push(Pre::Bind(r.clone(), format!("(Fns.{} {})", sig.lean, terms.join(" "))));
+        // outputs: (ret, written…)
+        let n_out = 1 + sig.written.len();
+        let proj = |k: usize| -> String {
+            if n_out == 1 {
+                return r.clone();
+            }
+            let mut t = r.clone();
+            for _ in 0..k {
+                t = format!("{}.2", t);
+            }
+            if k + 1 < n_out {
+                t = format!("{}.1", t);
+            }
+            t
+        };
+        for (k, w) in sig.written.iter().enumerate() {
+            let rest = w.strip_prefix("self.").unwrap_or(w);
+            let caller_path = format!("{}.{}", rp, rest);
+            if !self.written.contains(&caller_path) {
+                return self.un(format!("internal: write to `{}` through translated `{}::{}` missed by the pre-pass", caller_path, head, m.method));
+            }
+            let cur = self.place(&caller_path)?;
+            pre.push(Pre::Let(cur.lean.clone(), proj(k + 1)));
+        }
+        let v = self.fresh("t");
+        pre.push(Pre::Let(v.clone(), proj(0)));
+        Ok(Some(Tx { pre, term: v, ty: sig.ret.clone() }))
+    }
+
     fn method_call(&mut self, m: &syn::ExprMethodCall, want: Option<&LT>) -> R<Tx> {
         let name = m.method.to_string();
         let args: Vec<&Expr> = m.args.iter().collect();
         // places first: self.a.b.len(), self.entries[...]
         if args.is_empty() && matches!(name.as_str(), "borrow" | "borrow_mut" | "as_ref" | "as_mut" | "get" | "clone") {
             return self.expr(&m.receiver, want);
+        }
+        if let Some(tx) = self.call_translated_on_place(m)? {
+            return Ok(tx);
         }
         if self.vm_mode {
             let rp = self.path_of(&m.receiver);
